@@ -511,7 +511,7 @@ impl World for MtWorld {
             if n > 0 {
                 self.quiesce();
             }
-            if req == seam::PTRACE_SINGLESTEP && self.p_signal > 0 && self.tape.chance(self.p_signal, 200) {
+            if req == seam::PTRACE_SINGLESTEP && self.p_signal > 0 && self.tape.chance(self.p_signal, 60) {
                 // a signal that becomes pending right before a single step of the group
                 if self.maybe_signal() {
                     bump(&mut self.stats, "c10.signal_before_single_step");
@@ -697,6 +697,7 @@ struct Driver {
     stdout: Vec<u8>,
     exit: Option<i32>,
     bp_nums: [Option<u32>; NSITES],
+    stepi_chain: u32,
 }
 
 fn w<R>(f: impl FnOnce(&mut MtWorld) -> R) -> R {
@@ -976,7 +977,7 @@ pub fn run(spec: &WorkerSpec) -> WorkerResult {
         eprintln!("world ready at {:?}", t_all.elapsed());
     }
     seam::install_world(Box::new(world));
-    let mut d = Driver { dbg: Some(dbg), pid, events, watches: BTreeMap::new(), watched_base, reader, stdout: vec![], exit: None, bp_nums: [None; NSITES] };
+    let mut d = Driver { dbg: Some(dbg), pid, events, watches: BTreeMap::new(), watched_base, reader, stdout: vec![], exit: None, bp_nums: [None; NSITES], stepi_chain: 0 };
     let max_ops = spec.params.get("max_ops").and_then(|v| v.as_u64()).unwrap_or(40) as usize;
     let mut started = false;
     let mut ops = 0usize;
@@ -1111,7 +1112,38 @@ pub fn run(spec: &WorkerSpec) -> WorkerResult {
                 }
                 let focus = dbg.ecx().pid_on_focus().as_raw();
                 let rip = raw::getregs(focus).map(|r| r.rip).unwrap_or(0);
+                // a second and third stepi right behind the site instruction (its `ret` and the
+                // first instruction back in the interpreter): still far from any blocking call
+                let follow = site_addr.iter().position(|a| rip > *a && rip <= *a + 9);
+                if let (Some(k), true) = (follow, d.stepi_chain > 0 && d.stepi_chain < 3) {
+                    let r = dbg.stepi();
+                    d.stepi_chain += 1;
+                    w(|w| {
+                        bump(&mut w.stats, "c09.stepi_behind_site");
+                        w.logf(format!("{ops:3} stepi {} behind site{k} -> {}", w.name(focus), if r.is_ok() { "ok" } else { "Err" }));
+                    });
+                    if r.is_ok() {
+                        let evs: Vec<Ev> = d.events.0.borrow()[ev0..].to_vec();
+                        for e in &evs {
+                            if let Ev::Signal(s) = e {
+                                let s = *s;
+                                w(|w| {
+                                    let i = w.idx_of(focus);
+                                    match i.and_then(|i| w.sent.iter().position(|x| x.idx == i && x.sig == s && x.reported == 0)) {
+                                        Some(p) => w.sent[p].reported += 1,
+                                        None if i.map(|i| w.tainted_threads.contains(&i)).unwrap_or(false) => {}
+                                        None => w.violate("C10", "signal_report_without_signal", format!("stepi reported signal {s} for {} which was not sent", w.name(focus))),
+                                    }
+                                    bump(&mut w.stats, "c10.signal_reported_by_step");
+                                });
+                            }
+                        }
+                    }
+                    d.dbg = Some(dbg);
+                    continue;
+                }
                 if let Some(k) = site_addr.iter().position(|a| *a == rip) {
+                    d.stepi_chain = 1;
                     let r = dbg.stepi();
                     let rip2 = raw::getregs(focus).map(|r| r.rip).unwrap_or(0);
                     let cut_by_signal = d.events.0.borrow()[ev0..].iter().any(|e| matches!(e, Ev::Signal(_)));
@@ -1169,6 +1201,7 @@ pub fn run(spec: &WorkerSpec) -> WorkerResult {
             _ => {
                 // start / continue
                 let r = if !started { dbg.start_debugee_with_reason() } else { dbg.continue_debugee_with_reason() };
+                d.stepi_chain = 0;
                 let was_started = started;
                 started = true;
                 d.dbg = Some(dbg);
